@@ -106,6 +106,8 @@ def generate(rng, tier):
             W = W + rng.choice([0.25, 0.5, 0.75, 0.9, 0.99])
         dmax = rng.choice([2, 4, 6, 8]) if n <= 3 else (rng.choice([2, 4, 6]) if n == 4 else rng.choice([2, 3]))
         demands = [rng.randrange(0, dmax + 1) for _ in range(n)]
+        if rng.random() < 0.03:
+            demands = [0] * n  # nothing demanded: the empty plan is the (only) minimum
         case.update({"mode": "stock", "W": W, "sizes": sizes, "demands": demands})
     else:
         m = rng.randrange(1, 5)
